@@ -6,7 +6,7 @@ import torch
 from . import models, wq
 
 EVIDENCE = dict(
-    bounds="no-write monitor (all values, all executed paths): every in-place ATen op is checked against the protected storages (parameters, buffers/scales, caller-owned inputs) during model(x) outside calibration (unfrozen, frozen, calibrated), quantize(), freeze(), state_dict(), quantize_weight() over 5 shapes x axis x every divisor group size x six qtypes, quantize_activation(); determinism by term identity of two successive evaluations with symbolic parameters and inputs; scoping under faults: exception raised in the forward of the k-th module for every k (solver-enumerated, models of <= 5 modules), exception kinds Exception and BaseException (KeyboardInterrupt), nesting depth <= 2 (distinct context objects and the same object re-entered), sequential contexts (distinct objects and one object reused), normal exit",
+    bounds="no-write monitor (all values, all executed paths): every in-place ATen op is checked against the protected storages (parameters, buffers/scales, caller-owned inputs) during model(x) outside calibration (unfrozen, frozen, calibrated), quantize(), freeze(), state_dict(), quantize_weight() over 5 shapes x axis x every divisor group size x six qtypes, quantize_activation(); determinism by term identity of two successive evaluations with symbolic parameters and inputs; scoping under faults: exception raised in the forward of the k-th module for every k (solver-enumerated, models of <= 5 modules), exception kinds Exception and BaseException (KeyboardInterrupt), nesting depth <= 2 (distinct context objects and the same object re-entered), sequential contexts (distinct objects and one object reused), normal exit; ownership: nine in-place operations applied by the caller to the tensors returned by model(x) and by quantize_activation must reach neither buffers, nor the caller's inputs, nor the next evaluation",
     outside="multi-threaded use; asynchronous exceptions; the fault clause's state is concrete (hook tables, mode stack): it is bounded enumeration steered by the solver, not a symbolic claim",
     assumptions=["a write that does not go through an ATen in-place/out op (e.g. raw data_ptr access in a compiled extension) is not observed", "Python-level state (qtypes, extension switch, registries) is snapshotted and compared concretely"],
 )
